@@ -219,6 +219,13 @@ def tampered(doc, universe_paths):
     d = copy.deepcopy(doc)
     d["version"] = OTHER_VERSION
     out.append(("other-version", d))
+    from codelimit.common.report.Report import Report as _Rep
+
+    parts = _Rep.VERSION.split(".")
+    for near in (".".join(parts[:2] + ["0"]) if parts[2:] != ["0"] else ".".join(parts[:2] + ["9"]), ".".join(parts[:2]), _Rep.VERSION + ".post1"):
+        d = copy.deepcopy(doc)
+        d["version"] = near  # another release of the same minor series
+        out.append((f"near-version", d))
     d = copy.deepcopy(doc)
     del d["version"]  # documents written by old releases carry no version at all
     out.append(("no-version", d))
